@@ -92,3 +92,209 @@ void h_extract(void) {
     VACUITY_END();
 }
 #endif
+
+#ifdef PLOCK
+/* The pool lock word arena_slot::task_pool: EmptyTaskPool | LockedTaskPool | the owner's task_pool_ptr.  Rely/guarantee over one word, any number of
+   thieves and the owner (SC).  Ghost census: gH = number of holders, meH = this thread holds.  The owner's task_pool_ptr is owner-private: thieves see it
+   only through the word; while a thief holds the lock the owner cannot change it (the owner changes it only under the lock or while unpublished). */
+typedef struct task { int d; } task;
+#define EmptyTaskPool ((task**)0)
+#define LockedTaskPool ((task**)~(intptr_t)0)
+struct aslot { task **task_pool; task **task_pool_ptr; size_t head, tail; };
+static struct aslot S; unsigned long gH; bool meH, me_owner;
+#define INV (gH <= 1 && ((S.task_pool == LockedTaskPool) == (gH == 1)) && gH >= (unsigned long)meH \
+  && (S.task_pool == EmptyTaskPool || S.task_pool == LockedTaskPool || S.task_pool == S.task_pool_ptr) && S.task_pool_ptr != EmptyTaskPool && S.task_pool_ptr != LockedTaskPool)
+static void interfere(void) {
+    task **o = S.task_pool, **op = S.task_pool_ptr;
+    S.task_pool = nondet_ptr(); gH = nondet_ulong(); if (!me_owner && !meH) S.task_pool_ptr = nondet_ptr();
+    __CPROVER_assume(INV);
+    if (me_owner) __CPROVER_assume((o == EmptyTaskPool) == (S.task_pool == EmptyTaskPool));   /* only the owner publishes and leaves */
+}
+/* guarantee of every step: INV again; a thread that is not the owner never changes whether the pool is published; nobody writes the word while another thread holds the lock */
+#define RG_SITE(site, T, op) ({ interfere(); task **old_ = S.task_pool; unsigned long oH_ = gH; bool omeH_ = meH; T r_ = (op); GHOST_##site; \
+   __CPROVER_assert(INV, "guarantee: lock-word invariant (at most one holder; Locked iff held; otherwise Empty or the owner's pool) re-established at " #site); \
+   __CPROVER_assert(me_owner || (old_ == EmptyTaskPool) == (S.task_pool == EmptyTaskPool), "guarantee: a thief never publishes or unpublishes the pool, at " #site); \
+   __CPROVER_assert(!(oH_ == 1 && !omeH_) || S.task_pool == old_, "guarantee: the word is not written while another thread holds the lock, at " #site); r_; })
+#define ATOMIC_LOAD_AT(site, f) RG_SITE(site, task **, (f))
+#define ATOMIC_CAS_AT(site, f, e, d) RG_SITE(site, bool, ((f) == *(e) ? ((f) = (d), true) : (*(e) = (f), false)))
+#define ATOMIC_STORE_AT(site, f, v) RG_SITE(site, int, ((f) = (v), 0))
+#define NOG ((void)0)
+#define TAKE if (r_) { gH++; meH = true; }
+#define DROP { gH--; meH = false; }
+#define GHOST_acquire_task_pool_LOAD_1 NOG
+#define GHOST_acquire_task_pool_LOAD_2 NOG
+#define GHOST_acquire_task_pool_LOAD_3 NOG
+#define GHOST_acquire_task_pool_CAS_1 TAKE
+#define GHOST_release_task_pool_LOAD_1 NOG
+#define GHOST_release_task_pool_LOAD_2 NOG
+#define GHOST_release_task_pool_STORE_1 DROP
+#define GHOST_lock_task_pool_LOAD_1 NOG
+#define GHOST_lock_task_pool_LOAD_2 NOG
+#define GHOST_lock_task_pool_CAS_1 TAKE
+#define GHOST_unlock_task_pool_LOAD_1 NOG
+#define GHOST_unlock_task_pool_STORE_1 DROP
+#define GHOST_leave_task_pool_LOAD_1 NOG
+#define GHOST_leave_task_pool_LOAD_2 NOG
+#define GHOST_leave_task_pool_STORE_1 DROP
+#define GHOST_publish_task_pool_LOAD_1 NOG
+#define GHOST_publish_task_pool_STORE_1 NOG
+#define LOOP_acquire_task_pool_1 __CPROVER_assigns(S.task_pool, S.task_pool_ptr, gH, meH, sync_prepare_done) __CPROVER_loop_invariant(INV && !meH && S.task_pool != EmptyTaskPool)
+#define LOOP_lock_task_pool_1 __CPROVER_assigns(S.task_pool, S.task_pool_ptr, gH, meH, victim_task_pool) __CPROVER_loop_invariant(INV && !meH)
+#include "locks.inc"
+#define PRE(c) do { S.task_pool = nondet_ptr(); S.task_pool_ptr = nondet_ptr(); S.head = nondet_size_t(); S.tail = nondet_size_t(); gH = nondet_ulong(); meH = nondet_bool(); __CPROVER_assume(INV && (c)); } while (0)
+void h_acquire(void) { me_owner = true; PRE(!meH); bool pub = S.task_pool != EmptyTaskPool; slot_acquire_task_pool(&S); interfere();
+    OBLIGATION(pub ? (meH && gH == 1 && S.task_pool == LockedTaskPool) : (!meH && S.task_pool == EmptyTaskPool), "C01.lock: acquire_task_pool returns holding the lock exclusively, or with the pool unpublished (nothing to lock)"); VACUITY_END(); }
+void h_release(void) { me_owner = true; PRE(S.task_pool == EmptyTaskPool ? !meH : meH); bool pub = S.task_pool != EmptyTaskPool; slot_release_task_pool(&S);
+    OBLIGATION(!meH && (pub ? S.task_pool == S.task_pool_ptr : S.task_pool == EmptyTaskPool), "C01.lock: release_task_pool gives the lock back and republishes the owner's current pool pointer"); VACUITY_END(); }
+void h_lock(void) { me_owner = false; PRE(!meH); task **r = slot_lock_task_pool(&S); task **at_return = S.task_pool_ptr; interfere();
+    OBLIGATION(r == EmptyTaskPool ? !meH : (meH && gH == 1 && r != LockedTaskPool && r == at_return && S.task_pool_ptr == at_return && S.task_pool == LockedTaskPool),
+               "C01.lock: lock_task_pool returns nullptr without the lock, or the victim's pool with the lock held exclusively; the pool pointer cannot change while it is held"); VACUITY_END(); }
+void h_unlock(void) { me_owner = false; PRE(meH); task **p = S.task_pool_ptr; slot_unlock_task_pool(&S, p);
+    OBLIGATION(!meH && gH == 0 && S.task_pool == p, "C01.lock: unlock_task_pool releases the lock and restores exactly the pool pointer it was given"); VACUITY_END(); }
+void h_leave(void) { me_owner = true; PRE(meH && S.head == S.tail); slot_leave_task_pool(&S); interfere();
+    OBLIGATION(!meH && gH == 0 && S.task_pool == EmptyTaskPool, "C01.lock: leave_task_pool drops the lock and leaves the pool unpublished - no thief can enter it"); VACUITY_END(); }
+void h_publish(void) { me_owner = true; PRE(!meH && S.task_pool == EmptyTaskPool && S.head < S.tail); slot_publish_task_pool(&S);
+    OBLIGATION(!meH && S.task_pool == S.task_pool_ptr, "C01.lock: publish_task_pool makes exactly the owner's pool visible, unlocked"); VACUITY_END(); }
+#endif
+
+#ifdef STEAL
+/* arena_slot::steal_task, the thief's side, for pools of ANY size (loop contract).  The pool is represented by per-index arrays: entry i is a hole or THE i-th task
+   (tasks in a pool are pairwise distinct - the representation makes that a fact instead of a quantified assumption); attributes are arbitrary per task.
+   The owner is quiescent here (tail fixed); the owner/thief arbitration on head/tail is the subject of the jobs the.* */
+typedef struct task task;
+struct arena { bool my_mailbox_idle; };
+struct aslot { size_t head, tail; bool published; int locked, lock_calls; };
+#define NMAX ((size_t)1 << 12)
+static size_t g_n; static bool *g_hole; static isolation_type *g_iso; static bool *g_proxy, *g_shared, *g_outbox_idle; static int g_adv;
+static task *const POOL_TOKEN = (task *)(uintptr_t)8;
+#define TASKPTR(i) ((task *)(((uintptr_t)(i) + 1) << 4))
+#define TIDX(p) ((size_t)(((uintptr_t)(p)) >> 4) - 1)
+#define TASK_ISOLATION(p) (g_iso[TIDX(p)])
+#define TASK_IS_PROXY(p) (g_proxy[TIDX(p)])
+static task *pool_rd(task **vp, size_t i) { __CPROVER_assert(vp == (task **)POOL_TOKEN, "C01.steal: the pool read is the one that was locked"); __CPROVER_assert(i < g_n, "C01.steal: pool index inside the pool"); return g_hole[i] ? NULL : TASKPTR(i); }
+static void pool_wr(task **vp, size_t i, task *v) { __CPROVER_assert(vp == (task **)POOL_TOKEN && i < g_n, "C01.steal: pool write inside the locked pool"); __CPROVER_assert(v == NULL, "C01.steal: a thief only ever writes holes into the victim's pool"); g_hole[i] = true; }
+#define POOL_RD(vp, i) pool_rd((vp), (i))
+#define POOL_WR(vp, i, v) pool_wr((vp), (i), (v))
+#define ATOMIC_LOAD_AT(site, x) (x)
+#define ATOMIC_STORE_AT(site, x, v) ((x) = (v))
+#define ATOMIC_PREINC_AT(site, x) (++(x))
+static task **slot_lock_task_pool(struct aslot *s) { if (!s->published) return NULL; s->locked++; s->lock_calls++; return (task **)POOL_TOKEN; }
+static void slot_unlock_task_pool(struct aslot *s, task **p) { __CPROVER_assert(p == (task **)POOL_TOKEN, "C01.steal: unlock restores the pointer lock returned"); s->locked--; }
+static bool STUB_proxy_is_shared(task *tp) { return g_shared[TIDX(tp)]; }
+static bool STUB_outbox_recipient_is_idle(task *tp) { return g_outbox_idle[TIDX(tp)]; }
+static bool STUB_my_mailbox_is_idle(struct arena *a, size_t idx) { return a->my_mailbox_idle; }
+static void STUB_advertise_new_work(void) { g_adv++; }
+size_t g_k, g_Hin, g_T; isolation_type g_isoarg; bool g_mbidle;
+#define ELIG(i) (!g_hole[i] && (g_isoarg == no_isolation || g_isoarg == g_iso[i]) && (!g_proxy[i] || !g_shared[i] || !g_outbox_idle[i] || g_mbidle))
+/* at the loop head: head mirrors H; everything in [Hin,H) was looked at and is a hole or not eligible; [Hin,H0) are holes only; H0 trails H exactly when something was skipped */
+#define LOOP_steal_1 __CPROVER_assigns(H, H0, result, tasks_omitted, self->head) \
+  __CPROVER_loop_invariant(self->head == H && g_Hin <= H0 && H0 <= H && H <= g_T && self->tail == g_T && result == NULL && (tasks_omitted ? (H0 < H && !g_hole[H0]) : H0 == H) \
+     && (!(g_Hin <= g_k && g_k < H) || !ELIG(g_k)) && (!(g_Hin <= g_k && g_k < H0) || g_hole[g_k])) \
+  __CPROVER_decreases(g_T - H)
+#include "steal.inc"
+size_t IN_head, IN_tail, IN_iso, IN_k;
+void h_steal(void) {
+    g_n = nondet_size_t(); __CPROVER_assume(g_n >= 1 && g_n <= NMAX);
+    g_hole = malloc(g_n * sizeof(bool)); g_iso = malloc(g_n * sizeof(isolation_type)); g_proxy = malloc(g_n * sizeof(bool)); g_shared = malloc(g_n * sizeof(bool)); g_outbox_idle = malloc(g_n * sizeof(bool));
+    __CPROVER_assume(g_hole && g_iso && g_proxy && g_shared && g_outbox_idle);
+    struct aslot s; struct arena a; s.published = nondet_bool(); s.locked = 0; s.lock_calls = 0; g_adv = 0;
+    g_Hin = IN_head = s.head = nondet_size_t(); g_T = IN_tail = s.tail = nondet_size_t(); __CPROVER_assume(g_Hin <= g_T && g_T <= g_n);
+    g_isoarg = IN_iso = nondet_size_t(); g_mbidle = a.my_mailbox_idle = nondet_bool(); g_k = IN_k = nondet_size_t(); __CPROVER_assume(g_k < g_n);
+    bool hole0 = g_hole[g_k], elig0 = ELIG(g_k);
+    task *r = slot_steal_task(&s, &a, g_isoarg, nondet_size_t());
+    OBLIGATION(s.locked == 0 && s.lock_calls == (s.published ? 1 : 0), "C01.steal: the victim's pool is locked exactly once and unlocked again on every path");
+    OBLIGATION(s.tail == g_T, "C01.steal: a thief never moves the tail");
+    OBLIGATION(s.published || (r == NULL && s.head == g_Hin), "C01.steal: nothing is taken from an unpublished pool");
+    if (r != NULL) {
+        size_t q = TIDX(r);
+        OBLIGATION(q >= g_Hin && q < g_T && r == TASKPTR(q), "C01.steal: the stolen task is one that was in the victim's pool, inside [head, tail)");
+        if (q == g_k) {
+            OBLIGATION(!hole0 && elig0, "C01.steal: the stolen task is eligible for this thief: its isolation tag matches (or the thief is not isolated), and a proxy is taken only when its recipient is unlikely to grab it");
+            OBLIGATION(!(s.head <= q && q < s.tail && !g_hole[q]), "C01.once: the stolen task is no longer in the pool - neither the owner nor another thief can take it again");
+        }
+    }
+    if (g_k >= g_Hin && g_k < g_T && !hole0 && !(r != NULL && TIDX(r) == g_k))
+        OBLIGATION(s.head <= g_k && g_k < s.tail && !g_hole[g_k], "C01.once: every task the thief did not take is still in the published pool, where it was - nothing is lost");
+    if (!(r != NULL && TIDX(r) == g_k)) OBLIGATION(g_hole[g_k] == hole0, "C01.steal: no other pool entry is touched");
+    OBLIGATION(s.head >= g_Hin && s.head <= g_T, "C01.steal: head stays within [old head, tail]");
+    VACUITY_END();
+}
+#endif
+
+#ifdef GTLC
+/* arena_slot::get_task + get_task_impl + reset_task_pool_and_leave: the owner's pop with isolation skipping, for pools of ANY size (loop contract).
+   Same pool representation as for steal_task; thieves only try and back off (head fixed up to a transient +1) - the arbitration with a thief is the subject of the jobs the.* */
+typedef struct task task;
+typedef struct execution_data_ext { slot_id affinity_slot; } execution_data_ext;
+struct aslot { size_t head, tail; task **task_pool_ptr; bool published, locked; };
+#define NMAX ((size_t)1 << 12)
+static size_t g_n; static bool *g_hole; static isolation_type *g_iso; static bool *g_proxy, *g_has_task; static bool g_adv, g_del_k; size_t g_k;
+static task *const POOL_TOKEN = (task *)(uintptr_t)8;
+#define TASKPTR(i) ((task *)(((uintptr_t)(i) + 1) << 4))
+#define INNER(i) ((task *)((((uintptr_t)(i) + 1) << 4) | 4))      /* the task a proxy stands for */
+#define TIDX(p) ((size_t)(((uintptr_t)(p)) >> 4) - 1)
+#define TASK_ISOLATION(p) (g_iso[TIDX(p)])
+#define TASK_IS_PROXY(p) (g_proxy[TIDX(p)])
+#define TASK_SLOT(p) ((slot_id)TIDX(p))
+static task *pool_rd(task **vp, size_t i) { __CPROVER_assert(vp == (task **)POOL_TOKEN, "C01.pool: the owner reads its own pool"); __CPROVER_assert(i < g_n, "C01.pool: pool index inside the pool"); return g_hole[i] ? NULL : TASKPTR(i); }
+static void pool_wr(task **vp, size_t i, task *v) { __CPROVER_assert(vp == (task **)POOL_TOKEN && i < g_n, "C01.pool: pool write inside the pool"); __CPROVER_assert(v == NULL, "C01.pool: popping only ever writes holes"); g_hole[i] = true; }
+#define POOL_RD(vp, i) pool_rd((vp), (i))
+#define POOL_WR(vp, i, v) pool_wr((vp), (i), (v))
+/* a thief that is about to back off shows as a transient head+1 to an owner that does not hold the lock (the permanent effects of thieves are the subject of the.*) */
+static size_t load_(struct aslot *s, size_t *p) { return *p + ((p == &s->head && s->published && !s->locked && nondet_bool()) ? 1 : 0); }
+#define ATOMIC_LOAD(x) load_(self, &(x))
+#define ATOMIC_STORE(x, v) ((x) = (v))
+#define ATOMIC_PREDEC(x) (--(x))
+static void slot_acquire_task_pool(struct aslot *s) { __CPROVER_assert(!s->locked, "C01.pool: the owner does not lock twice"); if (s->published) s->locked = true; }
+static void slot_release_task_pool(struct aslot *s) { s->locked = false; }
+static void slot_leave_task_pool(struct aslot *s) { __CPROVER_assert(s->locked && s->head == s->tail, "C01.pool: the pool is left only locked and empty"); s->published = false; s->locked = false; }
+static void slot_publish_task_pool(struct aslot *s) { __CPROVER_assert(!s->published && s->head < s->tail, "C01.pool: publish only an unpublished, non-empty pool"); s->published = true; }
+static bool slot_is_task_pool_published(struct aslot *s) { return s->published; }
+static bool slot_is_quiescent_local_task_pool_reset(struct aslot *s) { return s->head == 0 && s->tail == 0; }
+static void STUB_advertise_new_work(void) { g_adv = true; }
+static task *STUB_proxy_extract_task_pool(task *tp) { size_t i = TIDX(tp); if (g_has_task[i]) { g_has_task[i] = false; return INNER(i); } return NULL; }
+static void STUB_delete_proxy(task *tp) { if (TIDX(tp) == g_k) { __CPROVER_assert(!g_del_k, "C01.proxy: a proxy is freed at most once"); g_del_k = true; } }
+size_t g_Hin, g_Tin; isolation_type g_isoarg; bool g_hole0k, g_has0k;
+#define MISMATCH(i) (g_isoarg != no_isolation && g_isoarg != g_iso[i])
+/* loop head: tail mirrors T; nothing was returned yet; every position in [T, Tin) was examined and gave nothing: a hole, a task of another isolation level (still there), or a proxy that
+   turned out empty (freed; removed when skipped tasks stay above it).  T0 trails: [T0, Tin) holds no live task; T0 > T exactly when a task was skipped, and that task sits at T0-1. */
+#define LOOP_get_task_1 __CPROVER_assigns(T, T0, H0, result, task_pool_empty, tasks_omitted, self->head, self->tail, self->locked, self->published, g_del_k, g_adv, ed->affinity_slot, __CPROVER_object_whole(g_hole), __CPROVER_object_whole(g_has_task)) \
+  __CPROVER_loop_invariant(self->tail == T && self->head == g_Hin && self->published && !self->locked && result == NULL && !task_pool_empty && g_Hin <= T && T <= T0 && T0 <= g_Tin \
+     && (tasks_omitted ? (T < T0 && !g_hole[T0 - 1] && MISMATCH(T0 - 1)) : T0 == T) \
+     && ((g_k < T || g_k >= g_Tin || g_hole0k) ? (g_hole[g_k] == g_hole0k && g_has_task[g_k] == g_has0k && !g_del_k) : 1) \
+     && (g_k >= T && g_k < g_Tin && !g_hole0k ? ((MISMATCH(g_k) && !g_hole[g_k] && g_k < T0 && !g_del_k) || (!MISMATCH(g_k) && g_proxy[g_k] && !g_has0k && g_del_k && (g_hole[g_k] || g_k >= T0))) : 1) \
+     && (g_del_k ? !g_has0k : 1)) \
+  __CPROVER_decreases(T)
+#include "get_task_lc.inc"
+size_t IN_head, IN_tail, IN_iso, IN_k;
+void h_get_task_lc(void) {
+    g_n = nondet_size_t(); __CPROVER_assume(g_n >= 1 && g_n <= NMAX);
+    g_hole = malloc(g_n * sizeof(bool)); g_iso = malloc(g_n * sizeof(isolation_type)); g_proxy = malloc(g_n * sizeof(bool)); g_has_task = malloc(g_n * sizeof(bool));
+    __CPROVER_assume(g_hole && g_iso && g_proxy && g_has_task);
+    struct aslot s; s.task_pool_ptr = (task **)POOL_TOKEN; s.published = true; s.locked = false; g_adv = false; g_del_k = false; execution_data_ext ed; ed.affinity_slot = 0;
+    g_Hin = IN_head = s.head = nondet_size_t(); g_Tin = IN_tail = s.tail = nondet_size_t(); __CPROVER_assume(g_Hin <= g_Tin && g_Tin <= g_n);
+    g_isoarg = IN_iso = nondet_size_t(); g_k = IN_k = nondet_size_t(); __CPROVER_assume(g_k < g_n);
+    g_hole0k = g_hole[g_k]; g_has0k = g_has_task[g_k]; bool proxy_k = g_proxy[g_k], mismatch_k = MISMATCH(g_k);
+    task *r = slot_get_task(&s, &ed, g_isoarg);
+    OBLIGATION(!s.locked, "C01.pool: the pool lock is released on every path");
+    bool in_k = g_k >= g_Hin && g_k < g_Tin && !g_hole0k;
+    bool avail_k = s.published && s.head <= g_k && g_k < s.tail && !g_hole[g_k];
+    if (r != NULL) {
+        size_t q = TIDX(r); bool inner = ((uintptr_t)r & 4) != 0;
+        OBLIGATION(q >= g_Hin && q < g_Tin, "C01.pool: the task handed out comes from the owner's pool, inside [head, tail)");
+        if (q == g_k) {
+            OBLIGATION(!g_hole0k && !mismatch_k, "C01.iso: the owner gets only a task whose isolation tag it is allowed to run");
+            OBLIGATION(inner ? (proxy_k && g_has0k && ed.affinity_slot == TASK_SLOT(TASKPTR(q))) : !proxy_k, "C01.proxy: a proxy is never returned itself: it yields the task it stands for (once), with the affinity recorded");
+            OBLIGATION(!avail_k || inner, "C01.once: the task handed out is no longer in the pool - it cannot be dispatched a second time");
+        }
+    }
+    if (in_k && !(r != NULL && TIDX(r) == g_k)) {
+        if (mismatch_k || !proxy_k) OBLIGATION(avail_k, "C01.once: every task not handed out stays in the published pool, where it was - nothing is lost (skipped tasks of other isolation levels included)");
+        else OBLIGATION(avail_k || (!g_has0k && g_del_k), "C01.proxy: a proxy leaves the pool without yielding a task only if the mailbox side had taken the task already, and it is freed");
+    }
+    if (!in_k) OBLIGATION(!avail_k || (g_k >= g_Hin && g_k < g_Tin), "C01.once: the pool does not grow");
+    OBLIGATION(!(s.published && s.head <= g_k && g_k < s.tail) || (g_k >= g_Hin && g_k < g_Tin), "C01.once: the published range stays inside the old one - no stale slot becomes visible");
+    OBLIGATION(!g_del_k || (in_k && proxy_k && !mismatch_k && !g_has0k), "C01.proxy: only an emptied proxy the owner was allowed to look at is freed");
+    VACUITY_END();
+}
+#endif
